@@ -60,6 +60,7 @@ pub struct World {
     pub viol: Vec<Value>,
     /// submissions made between a block delivery and the following synchronisation
     pub racing_since_sync: u64,
+    pub allow_recent: bool,
     /// missing parent -> signature of the known defect that orphaned its pooled children
     pub orphan_cause: HashMap<Byte32, &'static str>,
     /// txs committed only on an abandoned branch that did not come back to the pool
@@ -120,6 +121,7 @@ impl World {
             next_tag: 1,
             viol: vec![],
             racing_since_sync: 0,
+            allow_recent: false,
             orphan_cause: HashMap::new(),
             lost_detached: HashSet::new(),
         };
@@ -288,6 +290,15 @@ impl World {
             if !(in_pool || is_live(&snap, op)) {
                 continue;
             }
+            // outputs of transactions committed within reorg reach are left alone most of the time:
+            // their spender would be a pooled child of a detached tx (C11 finding F3 when it is re-added)
+            if !in_pool && !self.allow_recent {
+                if let Some(info) = snap.get_transaction_info(&op.tx_hash()) {
+                    if info.block_number + 7 > snap.tip_number() && info.block_number > 0 {
+                        continue;
+                    }
+                }
+            }
             if spent.contains(op) {
                 taken.push((op.clone(), *cap));
             } else {
@@ -302,6 +313,7 @@ impl World {
 
     /// plans a transaction; `kind` is reported in the distribution
     pub fn plan_tx(&mut self, rng: &mut Rng, dump: &PoolDump) -> Option<(TransactionView, u64, &'static str)> {
+        self.allow_recent = rng.chance(1, 12);
         let (free, taken, pool_outs) = self.cell_classes(dump);
         let snap = self.node.shared.snapshot();
         let mut kind = "plain";
@@ -382,6 +394,8 @@ impl World {
         };
         let i = self.register_tx(tx, fee, false);
         self.log(json!({"submit": {"tx": i, "kind": kind, "fee": fee, "size": tx.data().serialized_size_in_block(), "result": class,
+            "deps": tx.cell_deps_iter().skip(1).map(|d| json!([self.tx_no(&d.out_point().tx_hash()), Unpack::<u32>::unpack(&d.out_point().index())])).collect::<Vec<_>>(),
+            "header_deps": tx.header_deps_iter().map(|h| json!(self.block_id.get(&h))).collect::<Vec<_>>(),
             "inputs": tx.input_pts_iter().map(|op| json!([self.tx_no(&op.tx_hash()), Unpack::<u32>::unpack(&op.index())])).collect::<Vec<_>>() }}));
         self.stat(&format!("submit_{kind}"));
         self.stat(&format!("submit_{class}"));
